@@ -230,6 +230,12 @@ func TestVerifC08(t *testing.T) {
 			c.FwdLat, c.WriteLat = lats[rr.Intn(4)], lats[rr.Intn(4)]
 			c.StopAt = t0
 			k := 1 + rr.Intn(3)
+			if i%28 == 8 || i%28 == 9 {
+				// a burst larger than the 16-slot request queue in the very instant
+				// of the stop request
+				k = 17 + rr.Intn(30)
+				c.DeadlineLat = []time.Duration{time.Nanosecond, vMs}[rr.Intn(2)]
+			}
 			for j := 0; j < k; j++ {
 				at := t0
 				if rr.Intn(2) == 0 {
@@ -280,6 +286,9 @@ func TestVerifC08(t *testing.T) {
 		r.Count(fmt.Sprintf("terminate_%v", c.Terminate), 1)
 		if cl != "idle" {
 			r.Nontrivial(c.ID)
+		}
+		if c.DeadlineLat > 0 && os.Getenv("VERIF_DEBUG") != "" {
+			fmt.Println("DEBUG2", c.ID, cl, len(c.Steps), vfake.Strings(vOnly(res.ev, "read_deliver", "deadline", "cancel", "run_return", "write_begin"), 70))
 		}
 		if c.StallMC > 0 && os.Getenv("VERIF_DEBUG") != "" {
 			fmt.Println("DEBUG", c.ID, cl, c.StallFor, c.StopAt, vfake.Strings(vOnly(res.ev, "write_begin", "write_end", "stall", "read_deliver", "cancel", "run_return"), 40))
